@@ -497,6 +497,13 @@ impl<'a, 'b> Run<'a, 'b> {
                 let r = rule.replacen("C04.", &format!("{prop}."), 1);
                 self.ctx.violate(oi, Violation::new(prop, &r, sig, text.clone()));
             }
+            // What a remote receives between its sync request and `synced` on a value or map lane (the queue decides
+            // it once a synced marker has been pushed) is the subject of C03 as well.
+            let synced_pushed = self.seq.ops.iter().take(oi).any(|o| o.starts_with('P') && o.ends_with(":y"));
+            if synced_pushed && (sig.ends_with("value") || sig.ends_with("map")) {
+                let r = rule.replacen("C04.", "C03.", 1);
+                self.ctx.violate(oi, Violation::new("C03", &r, sig, text.clone()));
+            }
         }
         let v = Violation::new(PROP, rule, sig, text);
         self.ctx.violate(oi, v);
